@@ -25,7 +25,7 @@ EntDim(e) == IF e.dom = "cells" THEN MeshDim(e.kind) ELSE MeshDim(e.kind) - 1
 EntSimplices(e, k) == IF e.dom = "cells" THEN CellSimplices(e.kind, Pts(e, e.ents[k]))
                       ELSE FacetSimplices(Pts(e, e.ents[k]))
 \* dF! * measure * scale^dF of the region (integer)
-RegionJac(e) == SumSeq([k \in DOMAIN e.ents |-> SimplicesJac(EntSimplices(e, k))])
+RegionJac(e) == ISumAll([k \in DOMAIN e.ents |-> SimplicesJac(EntSimplices(e, k))])
 MDeg(alpha) == SumSeq(alpha)
 
 \* ---------------------------------------------------------------------------
@@ -58,7 +58,7 @@ IntegrateWF(e) ==
   /\ MDeg(e.alpha) + ExtraDegree(e) <= e.order                        \* the promise of the property applies
   /\ e.oracle \in {"cells", "box"}
   /\ IPow(Max2(MaxAbsCoord(e.p), 1), MDeg(e.alpha) + MeshDim(e.kind)) < 1073741824 \div 64
-  /\ MDeg(e.alpha) + EntDim(e) <= 8
+  /\ e.oracle = "cells" => MDeg(e.alpha) + EntDim(e) <= 8
   /\ e.scale ^ (MDeg(e.alpha) + EntDim(e)) <= 65536
   /\ e.oracle = "box" =>
        /\ e.dom = "cells" /\ Len(e.box) = 2
@@ -82,11 +82,25 @@ MagnitudeOfJac(e, jac, q) ==
 Magnitude(e, q) == MagnitudeOfJac(e, RegionJac(e), q)
 MeasureOracle(e) == FxRat(RegionJac(e), Fact(EntDim(e)) * e.scale ^ EntDim(e))
 
-FunctionalExact(e) == FxNear(e.val, IntegralOracle(e), TolScaled(TolSum, Magnitude(e, MDeg(e.alpha))))
-ElementalExact(e)  ==
-  \A k \in DOMAIN e.evals :
-     FxNear(e.evals[k], Unscale(EntIntegral(e, k), e.scale, MDeg(e.alpha) + EntDim(e)),
-            TolScaled(TolSum, MagnitudeOfJac(e, SimplicesJac(EntSimplices(e, k)), MDeg(e.alpha))))
+\* TLC re-evaluates the body of [k \in S |-> ...] at every application; SubSeq builds the tuple once
+Materialize(f, n) == SubSeq(f, 1, n)
+\* both Integrate clauses from one pass over the region
+IntegrateVerdicts(e) ==
+  LET q    == MDeg(e.alpha)
+      n    == q + EntDim(e)
+      ne   == Len(e.ents)
+      Mq   == IPow(Max2(MaxAbsCoord(e.p), 1), q)
+      den  == Fact(EntDim(e)) * e.scale ^ n
+      jacs == Materialize([k \in 1..ne |-> SimplicesJac(EntSimplices(e, k))], ne)
+      ints == IF e.oracle = "cells" THEN Materialize([k \in 1..ne |-> EntIntegral(e, k)], ne) ELSE <<>>
+      want == IF e.oracle = "box" THEN Unscale(BoxIntegralFx(e.box[1], e.box[2], e.alpha), e.scale, n)
+              ELSE Unscale(FxSumAll(ints), e.scale, n)
+      mag(jac) == 1 + (jac * Mq) \div den
+  IN [FunctionalExact |-> FxNear(e.val, want, TolScaled(TolSum, mag(ISumAll(jacs))))] @@
+     (IF e.evals # <<>> /\ e.oracle = "cells"
+      THEN [ElementalExact |-> \A k \in 1..ne :
+               FxNear(e.evals[k], Unscale(ints[k], e.scale, n), TolScaled(TolSum, mag(jacs[k])))]
+      ELSE <<>>)
 
 \* the mass matrix of a partition-of-unity element sums to the measure of the region (cancellation among
 \* up to (#local)^2 entries of both signs per cell: 16 times the magnitude)
@@ -106,21 +120,44 @@ EntriesWF(e) ==
   /\ IF e.form = "load"
      THEN {<<e.vals[r][1], e.vals[r][2]>> : r \in DOMAIN e.vals} = (1..e.N) \X {0} /\ Len(e.vals) = e.N
      ELSE {<<e.vals[r][1], e.vals[r][2]>> : r \in DOMAIN e.vals} = (1..e.N) \X (1..e.N) /\ Len(e.vals) = e.N * e.N
-LocalEntryFx(e, k, i, j) ==
-  LET vs == Pts(e, e.ents[k]) IN
-  CASE e.form = "mass"    -> LocalMassFx(vs, e.deg, e.lnodes[i], e.lnodes[j])
-    [] e.form = "laplace" -> LocalLaplaceFx(vs, e.deg, e.lnodes[i], e.lnodes[j])
-    [] e.form = "load"    -> LocalLoadFx(vs, e.deg, e.lnodes[i])
-\* contributions of all (cell, local i, local j) that the DOF table sends to (I, J); J = 0 for the load vector
-ExactEntryFx(e, I, J) ==
-  LET hits == {kij \in (DOMAIN e.ents) \X (DOMAIN e.lnodes) \X (IF J = 0 THEN {1} ELSE DOMAIN e.lnodes) :
-                 e.edofs[kij[1]][kij[2]] = I /\ (J = 0 \/ e.edofs[kij[1]][kij[3]] = J)}
-      hs   == SetToSeq(hits)
-  IN FxSumAll([h \in DOMAIN hs |-> LocalEntryFx(e, hs[h][1], hs[h][2], hs[h][3])])
 TolEntries == FxMulSmall(TolSum, 64)
+\* Tabulated evaluation (TLC does not memoise operator applications): the Lagrange functions of the element's
+\* local nodes, their reference integrals and the per-cell geometric factors are built once per event; the
+\* definitions are those of Numeric.tla Part 5 (RefMass, RefLoad, RefGrad, DetGradLambda).
 EntriesExact(e) ==
-  \A r \in DOMAIN e.vals :
-     FxNear(SubSeq(e.vals[r], 3, 2 + NL), ExactEntryFx(e, e.vals[r][1], e.vals[r][2]), TolEntries)
+  LET nl   == Len(e.lnodes)
+      ne   == Len(e.ents)
+      m    == NNodesOf(e.kind)
+      lag  == Materialize([i \in 1..nl |-> Lagrange(e.deg, e.lnodes[i])], nl)
+      dl   == Materialize([i \in 1..nl |-> Materialize([r \in 1..m |-> PDeriv(lag[i].num, r)], m)], nl)
+      refM == IF e.form # "mass" THEN <<>> ELSE
+              Materialize([i \in 1..nl |-> Materialize([j \in 1..nl |->
+                 QMul(PIntegral(PMul(lag[i].num, lag[j].num)), Q(1, lag[i].den * lag[j].den))], nl)], nl)
+      refL == IF e.form # "load" THEN <<>> ELSE
+              Materialize([i \in 1..nl |-> QMul(PIntegral(lag[i].num), Q(1, lag[i].den))], nl)
+      refG == IF e.form # "laplace" THEN <<>> ELSE
+              Materialize([i \in 1..nl |-> Materialize([j \in 1..nl |->
+                 Materialize([r \in 1..m |-> Materialize([s \in 1..m |->
+                    QMul(PIntegral(PMul(dl[i][r], dl[j][s])), Q(1, lag[i].den * lag[j].den))], m)], m)], nl)], nl)
+      dets == Materialize([k \in 1..ne |-> Abs(SimplexDet(Pts(e, e.ents[k])))], ne)
+      gg   == IF e.form # "laplace" THEN <<>> ELSE
+              Materialize([k \in 1..ne |-> LET g == DetGradLambda(Pts(e, e.ents[k])) IN
+                 Materialize([r \in 1..m |-> Materialize([s \in 1..m |-> VDot(g[r], g[s])], m)], m)], ne)
+      local(k, i, j) ==
+        CASE e.form = "mass"    -> FxMulSmall(FxOfQ(refM[i][j]), dets[k])
+          [] e.form = "load"    -> FxMulSmall(FxOfQ(refL[i]), dets[k])
+          [] e.form = "laplace" ->
+               FxOfQ(QMul(QSumAll(FlattenSeq([r \in 1..m |-> [s \in 1..m |->
+                               QMul(QInt(gg[k][r][s]), refG[i][j][r][s])]])), Q(1, dets[k])))
+      locs == Materialize([k \in 1..ne |-> Materialize([I \in 1..e.N |-> {i \in 1..nl : e.edofs[k][i] = I}], e.N)], ne)
+      exact(I, J) ==
+        LET hs == SetToSeq(UNION {{<<k, i, j>> : i \in locs[k][I], j \in (IF J = 0 THEN {1} ELSE locs[k][J])} : k \in 1..ne})
+        IN FxSumAll([h \in DOMAIN hs |-> local(hs[h][1], hs[h][2], hs[h][3])])
+  IN \* the tables are demanded here, one after the other, so that each is built at shallow evaluation depth
+     /\ Len(lag) = nl /\ Len(dl) = nl /\ Len(refM) >= 0 /\ Len(refL) >= 0 /\ Len(refG) >= 0
+     /\ Len(dets) = ne /\ Len(gg) >= 0 /\ Len(locs) = ne
+     /\ \A r \in DOMAIN e.vals :
+          FxNear(SubSeq(e.vals[r], 3, 2 + NL), exact(e.vals[r][1], e.vals[r][2]), TolEntries)
 
 \* ---------------------------------------------------------------------------
 \* the same scalar under renumbering / rigid motion / refinement (law between two recorded numbers)
@@ -144,8 +181,7 @@ C02Clauses(e, carried) ==
   ELSE IF e.err # "" THEN [WellFormed |-> TRUE, NoUnexpectedError |-> FALSE]
   ELSE [WellFormed |-> TRUE, NoUnexpectedError |-> TRUE] @@
        (CASE e.a = "Integrate" ->
-               [FunctionalExact |-> FunctionalExact(e)] @@
-               (IF e.evals # <<>> /\ e.oracle = "cells" THEN [ElementalExact |-> ElementalExact(e)] ELSE <<>>)
+               IntegrateVerdicts(e)
           [] e.a = "MassSum" -> [MassSumsToMeasure |-> MassSumsToMeasure(e)]
           [] e.a = "Entries" -> [EntriesExact |-> EntriesExact(e)]) @@
        (IF e.pos > 1 /\ carried # <<>> /\ e.rel \in {"numbering", "motion", "refine"} /\ e.a # "Entries"
